@@ -547,6 +547,16 @@ class Executor:
             if mm:
                 a, b = args[0][1], args[1][1]; w = int(mm.group(2))
                 env[dest] = simp(z3.If(z3.ULT(a, b), bv(0, w), a - b)) if mm.group(1) == 'usub' else simp(z3.If(z3.ULT(a + b, a), bv(-1, w), a + b)); return
+            mm = re.match(r'llvm\.(fshl|fshr)\.i(\d+)', name)
+            if mm:
+                w = int(mm.group(2)); a, b, c = args[0][1], args[1][1], args[2][1]
+                sh = z3.URem(c, bv(w, w))
+                cat = z3.Concat(a, b)
+                if mm.group(1) == 'fshl':
+                    env[dest] = simp(z3.Extract(2*w-1, w, cat << z3.ZeroExt(w, sh)))
+                else:
+                    env[dest] = simp(z3.Extract(w-1, 0, z3.LShR(cat, z3.ZeroExt(w, sh))))
+                return
             if name.startswith('llvm.memcpy') or name.startswith('llvm.memmove'):
                 d, s, n = args[0][1], args[1][1], full_simp(args[2][1])
                 if not z3.is_bv_value(n): raise Outcome('unsupported', 'memcpy symbolic len')
